@@ -42,13 +42,13 @@ var propStandins = map[string][]Standin{
 	"C05": {{
 		Name: "wire", Pkg: "internal/index/manager", TestFile: "wire_standin_test.go", TestName: "TestC05Standin", OutEnv: "C05_OUT",
 		EnvQuick: []string{"C05_ROUNDS=40"}, EnvThorough: []string{"C05_ROUNDS=800"},
-		Bound:   "the import pipeline from capture files to visible streams with known ground truth (capture parsing, packet ordering, gopacket's TCP reassembly and the UDP flow tracking as the service configures them, direction assignment, stream writing; only what the reassembly callbacks record is under contract): 40 (quick) / 800 (thorough) seeded rounds of 1-5 conversations - TCP connections with a complete three-way handshake, 1-4 application messages alternating between the endpoints (client or server first), each cut into 1 or more segments, with a third of the messages having two neighbouring segments swapped and a third one segment retransmitted, acknowledgements, sequence numbers that wrap in some connections, a FIN exchange or not; UDP flows with 1-4 datagrams in alternating directions; 7 payload texts; the packets of all conversations interleaved by time, cut chronologically into 1-3 capture files and imported in one call or one by one - and the service must show exactly one stream per conversation with the right protocol, client and server endpoint and, per direction change, exactly the application bytes that were sent. Not generated: IPv6, IP fragments, connections without handshake, overlapping retransmissions with different content, reordering across more than one segment, lost segments, time-outs, packets of one connection spread over captures imported out of order (see C08)",
+		Bound:   "the import pipeline from capture files to visible streams with known ground truth (capture parsing, packet ordering, gopacket's TCP reassembly and the UDP flow tracking as the service configures them, direction assignment, stream writing; only what the reassembly callbacks record is under contract): 40 (quick) / 800 (thorough) seeded rounds of 1-5 conversations - TCP connections with a complete three-way handshake, 1-4 application messages alternating between the endpoints (client or server first), each cut into 1 or more segments, with a third of the messages having two neighbouring segments swapped and a third one segment retransmitted, acknowledgements, sequence numbers that wrap in some connections, a FIN exchange or not; UDP flows with 1-4 datagrams in alternating directions; a quarter of the conversations long lived (up to 4 minutes between packets, more than the 5 minute idle limit in total); 7 payload texts; the packets of all conversations interleaved by time, cut chronologically into 1-3 capture files and imported in one call or one by one - and the service must show exactly one stream per conversation with the right protocol, client and server endpoint and, per direction change, exactly the application bytes that were sent. Not generated: IPv6, IP fragments, connections without handshake, overlapping retransmissions with different content, reordering across more than one segment, lost segments, time-outs, packets of one connection spread over captures imported out of order (see C08)",
 		Timeout: 10 * time.Minute,
 	}},
 	"C08": {{
 		Name: "batching", Pkg: "internal/index/manager", TestFile: "batching_standin_test.go", TestName: "TestC08Standin", OutEnv: "C08_OUT",
 		EnvQuick: []string{"C08_ROUNDS=10"}, EnvThorough: []string{"C08_ROUNDS=120"},
-		Bound:   "independence of the import result from batching and arrival order (replay of older captures, reassembly state across captures, classification of streams as added/updated/reset; only the choice of stream ids is under contract): 10 (quick) / 120 (thorough) seeded rounds of 2-6 UDP conversations with 1-4 datagrams each (both directions, 5 payload words, gaps of 1-30 s, interleaved in time), cut chronologically into 1-4 capture files; the files are imported into separate services (a) all in one call, (b) one by one in order, (c) one by one in a shuffled order, (d) one by one with a restart of the service after every capture; (b)-(d) must end up showing exactly what (a) shows (per stream: client and server endpoint, payload per direction in order), (a) must show one stream per conversation, and within a service after every capture every stream id seen before still names the same pair of endpoints and no pair of endpoints is visible under two ids. Not generated: TCP (reassembly, retransmissions, reordering), IPv6, inactivity time-outs, snapshots (they need 100000 packets), captures larger than one batch",
+		Bound:   "independence of the import result from batching and arrival order (replay of older captures, reassembly state across captures, classification of streams as added/updated/reset; only the choice of stream ids is under contract): 10 (quick) / 120 (thorough) seeded rounds of 2-6 UDP conversations with 1-4 datagrams each (both directions, 5 payload words, gaps of 1-30 s, interleaved in time), cut chronologically into 1-4 capture files; the files are imported into separate services (a) all in one call, (b) one by one in order, (c) one by one in a shuffled order, (d) one by one with a restart of the service after every capture, (e) by one import call per capture issued back to back (the later ones wait in the queue); a third of the conversations are long lived (minutes between datagrams, always below the idle limit; failures of the shuffled order in rounds with such a conversation are a known finding and classified apart), and one round holds a capture of 100200 datagrams, which makes the importer take a reassembly snapshot while a long-lived conversation is active; (b)-(e) must end up showing exactly what (a) shows (per stream: client and server endpoint, payload per direction in order), (a) must show one stream per conversation, and within a service after every capture every stream id seen before still names the same pair of endpoints and no pair of endpoints is visible under two ids. Not generated: TCP (reassembly, retransmissions, reordering; see C05), IPv6, conversations that pause longer than the idle limit, re-import of a known capture, out-of-order arrival of long-lived conversations",
 		Timeout: 10 * time.Minute,
 	}},
 	"C19": {{
@@ -66,8 +66,8 @@ var propStandins = map[string][]Standin{
 	}},
 	"C16": {{
 		Name: "converter-output", Pkg: "internal/index/manager", TestFile: "converter_standin_test.go", TestName: "TestC16Standin", OutEnv: "C16_OUT",
-		EnvQuick: []string{"C16_HISTORIES=8", "C16_LEN=14"}, EnvThorough: []string{"C16_HISTORIES=80", "C16_LEN=20"},
-		Bound:   "converter output end to end with a real converter process (a python3 script the harness writes into the converter directory; it answers every stream with the same chunks in upper case): 8 (quick) / 80 (thorough) seeded histories of 14 / 20 manager calls out of imports of a new conversation (server port 9001 or 80, one of 4 payload words), imports of more data for an old conversation (its output has to be produced again), AddTag of three tags, attaching / detaching the converter, pauses; after every call the service is left alone until no job runs and nothing is queued for conversion, then on a fresh view: a search in the converter output (data.up:WORD, four words) must find every stream that is matched by a tag the converter is attached to and whose current upper-cased payload contains the word, and no stream whose current upper-cased payload does not contain it; the converter output shown for every such stream (at the end of the history: for every stream) must be its current payload in upper case, chunk by chunk. The interleaving of converter, import and tagging jobs is whatever the scheduler produces; reads while a converter job is running, converter crashes, several converters and cache files surviving a restart are not generated. Needs python3 on PATH",
+		EnvQuick: []string{"C16_HISTORIES=16", "C16_LEN=14"}, EnvThorough: []string{"C16_HISTORIES=120", "C16_LEN=20"},
+		Bound:   "converter output end to end with a real converter process (a python3 script the harness writes into the converter directory; it answers every stream with the same chunks in upper case): 16 (quick) / 120 (thorough) seeded histories of 14 / 20 manager calls out of imports of a new conversation (server port 9001 or 80, one of 4 payload words), imports of more data for an old conversation and imports of a capture older than everything imported so far (the stream is extended or rebuilt: its output has to be produced again), AddTag of three tags, attaching / detaching the converter, pauses; after every call the service is left alone until no job runs and nothing is queued for conversion, then on a fresh view: a search in the converter output (data.up:WORD, four words) must find every stream that is matched by a tag the converter is attached to and whose current upper-cased payload contains the word, and no stream whose current upper-cased payload does not contain it; the converter output shown for every such stream (at the end of the history: for every stream) must be its current payload in upper case, chunk by chunk. The interleaving of converter, import and tagging jobs is whatever the scheduler produces; reads while a converter job is running, converter crashes, several converters and cache files surviving a restart are not generated. Needs python3 on PATH",
 		Timeout: 10 * time.Minute,
 	}},
 	"C13": {{
